@@ -68,6 +68,10 @@ impl<T: Eq + PartialOrd + Send + Sync, A: Clone> Graph<T, A> {
         &&& forall|i: usize| #[trigger] self.predecessors_map@.contains_key(i) <==> i < self.n()
     }
 
+    // number of edge objects in the name-keyed store `edges` (what get_all_edges() flattens); left uninterpreted:
+    // get_all_edges is a values().flatten().collect() pipeline outside the verifier's reach (A5)
+    pub uninterp spec fn stored_edge_count(&self) -> nat;
+
     // ---- position-keyed edge store ----
     pub open spec fn has_pair(&self, u: usize, v: usize) -> bool {
         self.edges_map@.contains_key(u) && self.edges_map@[u]@.contains_key(v)
@@ -219,4 +223,114 @@ pub proof fn lemma_estore_after_store<T: Eq + PartialOrd + Send + Sync, A: Clone
             }
         }
     }
+}
+
+// ---- the contract of add_edge as spec functions over (pre-state, edge, post-state, result) ----
+pub open spec fn ae_outcome<T: Eq + PartialOrd + Send + Sync, A: Clone>(pre: Graph<T, A>, e: Edge<T, A>, post: Graph<T, A>, r: Result<(), Error>) -> bool {
+    &&& pre.self_loop_refused(e) && pre.specs.self_loops_false_strategy == SelfLoopsFalseStrategy::Error ==> is_err_kind(r, ErrorKind::SelfLoopsFound)
+    &&& pre.self_loop_refused(e) && pre.specs.self_loops_false_strategy == SelfLoopsFalseStrategy::Drop ==> r.is_ok()
+    &&& !pre.self_loop_refused(e) && pre.missing_refused(e) ==> is_err_kind(r, ErrorKind::NodeNotFound)
+    &&& !pre.self_loop_refused(e) && !pre.missing_refused(e) && pre.duplicate_refused(e) ==> is_err_kind(r, ErrorKind::DuplicateEdge)
+    &&& !pre.self_loop_refused(e) && !pre.missing_refused(e) && !pre.duplicate_refused(e) ==> r.is_ok()
+}
+
+pub open spec fn ae_error_is_noop<T: Eq + PartialOrd + Send + Sync, A: Clone>(pre: Graph<T, A>, e: Edge<T, A>, post: Graph<T, A>, r: Result<(), Error>) -> bool {
+    &&& r.is_err() ==> post == pre
+}
+
+pub open spec fn ae_drop_is_noop<T: Eq + PartialOrd + Send + Sync, A: Clone>(pre: Graph<T, A>, e: Edge<T, A>, post: Graph<T, A>, r: Result<(), Error>) -> bool {
+    &&& pre.self_loop_refused(e) ==> post == pre
+}
+
+pub open spec fn ae_ignored_duplicate_is_noop<T: Eq + PartialOrd + Send + Sync, A: Clone>(pre: Graph<T, A>, e: Edge<T, A>, post: Graph<T, A>, r: Result<(), Error>) -> bool {
+    &&& !pre.self_loop_refused(e) && !pre.missing_refused(e) && pre.duplicate_ignored(e) ==> post == pre
+}
+
+pub open spec fn ae_nodes<T: Eq + PartialOrd + Send + Sync, A: Clone>(pre: Graph<T, A>, e: Edge<T, A>, post: Graph<T, A>, r: Result<(), Error>) -> bool {
+    &&& pre.stores(e) ==> ({
+            &&& forall|i: int| 0 <= i < pre.n() ==> post.nodes_vec@[i] == pre.nodes_vec@[i]
+            &&& post.n() == names_after(pre.names(), pre.knows(e.u), pre.knows(e.v), e.u, e.v).len()
+            &&& forall|i: int| pre.n() <= i < post.n() ==> (#[trigger] post.nodes_vec@[i]).name == names_after(pre.names(), pre.knows(e.u), pre.knows(e.v), e.u, e.v)[i]
+            &&& forall|i: int| pre.n() <= i < post.n() ==> (#[trigger] post.nodes_vec@[i]).attributes.is_none()
+        })
+}
+
+pub open spec fn ae_wf<T: Eq + PartialOrd + Send + Sync, A: Clone>(pre: Graph<T, A>, e: Edge<T, A>, post: Graph<T, A>, r: Result<(), Error>) -> bool {
+    &&& post.wf_nodes()
+    &&& post.wf_estore()
+    &&& post.specs == pre.specs
+}
+
+pub open spec fn ae_store<T: Eq + PartialOrd + Send + Sync, A: Clone>(pre: Graph<T, A>, e: Edge<T, A>, post: Graph<T, A>, r: Result<(), Error>) -> bool {
+    &&& pre.stores(e) ==> ({
+            let c = post.canon(post.nodes_map@[e.u], post.nodes_map@[e.v]);
+            let ex = pre.existed(e);
+            &&& post.knows(e.u) && post.knows(e.v)
+            &&& post.has_pair(c.0, c.1)
+            &&& forall|a: usize, b: usize| (a != c.0 || b != c.1) ==> #[trigger] post.has_pair(a, b) == pre.has_pair(a, b)
+            &&& forall|a: usize, b: usize| (a != c.0 || b != c.1) && pre.has_pair(a, b) ==> #[trigger] post.pair_list(a, b) == pre.pair_list(a, b)
+            &&& (pre.specs.multi_edges && ex) ==> ({
+                    &&& post.pair_list(c.0, c.1).len() == pre.pair_list(c.0, c.1).len() + 1
+                    &&& forall|k: int| 0 <= k < pre.pair_list(c.0, c.1).len() ==> post.pair_list(c.0, c.1)[k] == pre.pair_list(c.0, c.1)[k]
+                    &&& *post.pair_list(c.0, c.1)[pre.pair_list(c.0, c.1).len() as int] == pre.stored_form(e)
+                })
+            &&& !(pre.specs.multi_edges && ex) ==> ({
+                    &&& post.pair_list(c.0, c.1).len() == 1
+                    &&& *post.pair_list(c.0, c.1)[0] == pre.stored_form(e)
+                })
+        })
+}
+
+pub open spec fn ae_traversal<T: Eq + PartialOrd + Send + Sync, A: Clone>(pre: Graph<T, A>, e: Edge<T, A>, post: Graph<T, A>, r: Result<(), Error>) -> bool {
+    &&& pre.stores(e) ==> ({
+            let c = post.canon(post.nodes_map@[e.u], post.nodes_map@[e.v]);
+            let ex = pre.existed(e);
+            let replace = ex && !pre.specs.multi_edges;
+            let w = e.weight;
+            &&& forall|i: int| 0 <= i < post.n() ==> (#[trigger] post.successors_vec@[i])@ ==
+                    expected_row(pad_row(pre.successors_vec@, i), i, c.0, c.1, w, ex, replace, !pre.specs.directed)
+            &&& pre.specs.directed ==> forall|i: int| 0 <= i < post.n() ==> (#[trigger] post.predecessors_vec@[i])@ ==
+                    expected_row(pad_row(pre.predecessors_vec@, i), i, c.1, c.0, w, ex, replace, false)
+            &&& !pre.specs.directed ==> forall|i: int| 0 <= i < post.n() ==> (#[trigger] post.predecessors_vec@[i])@ ==
+                    pad_row(pre.predecessors_vec@, i)
+        })
+}
+
+// everything add_edge guarantees about one call (the step relation the batch functions fold)
+pub open spec fn add_edge_rel<T: Eq + PartialOrd + Send + Sync, A: Clone>(pre: Graph<T, A>, e: Edge<T, A>, post: Graph<T, A>, r: Result<(), Error>) -> bool {
+    &&& ae_outcome(pre, e, post, r)
+    &&& ae_error_is_noop(pre, e, post, r)
+    &&& ae_drop_is_noop(pre, e, post, r)
+    &&& ae_ignored_duplicate_is_noop(pre, e, post, r)
+    &&& ae_nodes(pre, e, post, r)
+    &&& ae_wf(pre, e, post, r)
+    &&& ae_store(pre, e, post, r)
+    &&& ae_traversal(pre, e, post, r)
+}
+
+// ---- batch adds: the state is add_edge folded over a prefix of the batch ----
+// h is the history of states: h[0] = pre, h[j+1] results from a successful add_edge of es[j], h[k] = cur
+pub open spec fn prefix_applied<T: Eq + PartialOrd + Send + Sync, A: Clone>(pre: Graph<T, A>, es: Seq<Edge<T, A>>, h: Seq<Graph<T, A>>, k: int, cur: Graph<T, A>) -> bool {
+    &&& 0 <= k <= es.len()
+    &&& h.len() == k + 1
+    &&& h[0] == pre
+    &&& h[k] == cur
+    &&& forall|j: int| 0 <= j < k ==> add_edge_rel(h[j], es[j], #[trigger] h[j + 1], Ok(()))
+}
+
+// the batch stopped at the first failing edge es[k] (which changed nothing), or applied all of es
+pub open spec fn batch_rel<T: Eq + PartialOrd + Send + Sync, A: Clone>(pre: Graph<T, A>, es: Seq<Edge<T, A>>, post: Graph<T, A>, r: Result<(), Error>) -> bool {
+    exists|h: Seq<Graph<T, A>>, k: int| {
+        &&& #[trigger] prefix_applied(pre, es, h, k, post)
+        &&& (r.is_ok() ==> k == es.len())
+        &&& (r.is_err() ==> k < es.len() && add_edge_rel(post, es[k], post, r))
+    }
+}
+
+pub open spec fn edges_of<T: PartialOrd + Send, A>(v: Seq<Arc<Edge<T, A>>>) -> Seq<Edge<T, A>> {
+    Seq::new(v.len(), |i: int| *v[i])
+}
+
+pub open spec fn tuple_edges<T: PartialOrd + Send, A>(v: Seq<(T, T)>) -> Seq<Edge<T, A>> {
+    Seq::new(v.len(), |i: int| Edge { u: v[i].0, v: v[i].1, attributes: None, weight: f64_nan() })
 }
